@@ -1865,6 +1865,10 @@ SPECS = [
          header="def pauseWriting (s : Srv.Flow.FSt) : Srv.Flow.FSt × Unit :=", state_type="Srv.Flow.FSt",
          fields={"_unsent": "unsent", "_write_paused": "paused", "_response_sent": "started"},
          types={"self._write_paused": "bool"}),
+    dict(name="evictable", file="server/middleware.py", cls="RateLimiter", func="_cleanup_loop", numbers="Rat",
+         header="def evictable (bucket : BucketSt) (now : Rat) : Bool :=",
+         comp_cond=("(ip, bucket)", "self.buckets.items()"), opaque={"time.monotonic()": "now"},
+         types={"bucket": "obj", "now": "num", "bucket.last_update": "num", "bucket.tokens": "num", "bucket.refill_rate": "num", "bucket.capacity": "num"}),
     # the status-class predicates and the response accessor that the client translations (followRedirects, clientParseHeader) took as given
     dict(name="isRedirect", file="protocol/status.py", cls=None, func="is_redirect",
          header="def isRedirect (status : Nat) : Bool :=", types={"status": "num"}),
@@ -1952,6 +1956,7 @@ PRELUDE = {
     "dataReceived": (["NauyacaVerif.Srv.PState"], []),
     "handleMwResult": (["NauyacaVerif.Srv.PState"], []), "sendMwRejection": (["NauyacaVerif.Srv.PState"], []), "handleHandlerResult": (["NauyacaVerif.Srv.PState"], []), "handleUploadResult": (["NauyacaVerif.Srv.PState"], []),
     "handleGeminiRequest": (["NauyacaVerif.Srv.PState"], []), "processTitanUpload": (["NauyacaVerif.Srv.PState"], []),
+    "evictable": (["NauyacaVerif.Gen.Fn.Consume"], []),
     "staticHandle": (["NauyacaVerif.Fs.StaticPy"], []), "isSafePath": (["NauyacaVerif.Fs.StaticPy"], []),
     "pumpResponse": (["NauyacaVerif.Srv.FlowPy"], []), "resumeWriting": (["NauyacaVerif.Srv.FlowPy", "NauyacaVerif.Gen.Fn.PumpResponse"], []),
     "pauseWriting": (["NauyacaVerif.Srv.FlowPy"], []), "sendResponse": (["NauyacaVerif.Srv.FlowPy", "NauyacaVerif.Gen.Fn.PumpResponse"], []), "connectionLost": (["NauyacaVerif.Srv.FlowPy"], []),
@@ -2008,6 +2013,21 @@ def translate_all() -> tuple[dict[str, str], dict[str, str]]:
                 if not tries:
                     raise Unsupported("no try statement")
                 stmts = stmts[tries[-1]:]
+            if spec.get("comp_cond"):
+                # the function's ONE list comprehension `[x for … in … if c1 if c2]`: what is translated is its filter `c1 and c2`
+                comps = [n for n in ast.walk(f) if isinstance(n, (ast.ListComp, ast.SetComp, ast.GeneratorExp, ast.DictComp))]
+                if len(comps) != 1 or len(comps[0].generators) != 1 or not comps[0].generators[0].ifs or comps[0].generators[0].is_async:
+                    raise Unsupported("expected exactly one comprehension with one generator and a filter")
+                gen = comps[0].generators[0]
+                if ast.unparse(gen.target) != spec["comp_cond"][0] or ast.unparse(gen.iter) != spec["comp_cond"][1]:
+                    raise Unsupported(f"comprehension ranges over {ast.unparse(gen.target)} in {ast.unparse(gen.iter)}")
+                # every statement between the top of the loop body and the comprehension that binds a name the filter reads must be one the spec names
+                binds = {ast.unparse(n.targets[0]): ast.unparse(n.value) for n in ast.walk(f) if isinstance(n, ast.Assign) and len(n.targets) == 1 and isinstance(n.targets[0], ast.Name)}
+                for name in {n.id for c in gen.ifs for n in ast.walk(c) if isinstance(n, ast.Name)}:
+                    if name in binds and spec.get("opaque", {}).get(binds[name]) != name:
+                        raise Unsupported(f"the filter reads {name} = {binds[name]}")
+                cond = gen.ifs[0] if len(gen.ifs) == 1 else ast.BoolOp(op=ast.And(), values=list(gen.ifs))
+                stmts = [ast.copy_location(ast.Return(value=cond), comps[0])]
             if spec.get("fuel"):
                 body = "  match fuel with\n  | 0 => " + spec["fuel"] + "\n  | fuel + 1 =>\n" + Tr(spec).block(stmts, "    ")
             else:
